@@ -75,6 +75,10 @@ def align_model(world, model, obs, armed):
     except core.Violation as v:
         if armed == "C01":
             raise
+        if armed == "C07" and v.sig.get("where") in ("patch", "orig"):
+            # a marker that is not where the InsertionContext said, or
+            # same-location patches out of registration order
+            raise core.Violation("C07", "order", v.witness, {"kind": "bytes"})
         raise core.Desync(f"bytes differ from the model ({v.vclass}: {v.witness})")
 
 
@@ -784,3 +788,158 @@ def check_c06(mt, sess):
                 raise core.Violation("C06", "inserted-function-missing" if fid.startswith("I:") else "attribution", {"function": fid, "what": "functionNames entry missing or wrong", "name": getattr(sym, "name", None)}, {"kind": "name"})
         if fid.startswith("I:") and not any(f == fid for f, _ in real_entries):
             raise core.Violation("C06", "inserted-function-missing", {"function": fid, "what": "no entry"}, {"kind": "entry"})
+
+
+# ------------------------------------------------------------------ C07
+
+
+def c07_expected(sess):
+    """Expected (registration, block) pairs from the model's own reading of
+    the scope semantics (independent of scopes.py).  Computed at the start
+    of the session, when the spans are those of the real blocks."""
+    import re
+
+    from .vocab import NO_FALLTHROUGH
+
+    model, world = sess.model, sess.world
+    m = world.module
+    ops = sess.desc["ops"]
+    all_spans = [sp for sname in model.section_order for sp in model.span_list.get(sname, [])]
+    toks = {t.id: t for _, u in model.units() for t in u.toks}
+    ep_key = str(m.entry_point.uuid) if m.entry_point is not None else None
+    ep_span = model.spans.get(ep_key) if ep_key else None
+    labels = expect.label_index(model)
+
+    def fname(fid):
+        return model.funcs.get(fid, {}).get("name")
+
+    def pattern_match(fid, names):
+        for n in names:
+            if n == "MAIN":
+                ok = fname(fid) == "main"
+            elif n == "ENTRYPOINT":
+                ok = ep_span is not None and ep_span.func == fid and ep_span.is_entry
+            elif isinstance(n, dict):
+                ok = fname(fid) is not None and re.fullmatch(n["re"], fname(fid)) is not None
+            else:
+                ok = fname(fid) == n
+            if ok:
+                return True
+        return False
+
+    def last_insn(sp):
+        return toks[sp.tok_ids[-1]] if sp.tok_ids else None
+
+    def is_exit(sp):
+        t = last_insn(sp)
+        if t is None or t.kind != "insn":
+            return False
+        k = t.ikind
+        if k in ("ret", "ijmp"):
+            return True
+        out = False
+        if k in ("jmp", "jcc"):
+            tgt = expect.resolve(model, labels, t.target)
+            if tgt[0] != "tok":
+                out = True
+            else:
+                tf = toks[tgt[1]].func if tgt[1] in toks else None
+                out = tf != sp.func
+        if k not in NO_FALLTHROUGH:
+            # falls through to the next instruction of the section
+            loc = model.find(t.id)
+            nb = expect.next_byte_token(model, loc[0], loc[1], loc[2] + 1)
+            while nb is not None and nb[1].origin == "pad":
+                # alignment padding is transparent
+                u2 = nb[0]
+                nb = expect.next_byte_token(model, loc[0], u2, u2.toks.index(nb[1]) + 1)
+            if nb is not None and nb[1].kind == "insn" and nb[1].func != sp.func:
+                out = True
+        return out
+
+    def exit_offset(sp):
+        t = last_insn(sp)
+        if t is not None and t.kind == "insn" and t.ikind not in ("plain", "pad"):
+            return sp.size - len(t.b)
+        return sp.size
+
+    expected = {}
+    have_functions = "functionEntries" in m.aux_data and "functionBlocks" in m.aux_data and bool(m.aux_data["functionEntries"].data)
+    for oi, op in enumerate(ops):
+        if op["k"] != "reg":
+            continue
+        sc = op["scope"]
+        if sc["t"] == "allfuncs" and not have_functions:
+            expected[oi] = "refused"
+            continue
+        lst = []
+        for sp in all_spans:
+            if sp.kind != "code" or not sp.size:
+                continue
+            func = sp.func if have_functions else None
+            if sc["t"] == "allblocks":
+                ok = func is None or sc.get("exclude") is None or not pattern_match(func, sc["exclude"])
+                pos = sc["pos"]
+            elif sc["t"] == "single":
+                ok = sc["tok"] in sp.tok_ids
+                pos = sc["pos"]
+            else:
+                ok = func is not None and (sc.get("functions") is None or pattern_match(func, sc["functions"]))
+                if ok:
+                    ok = sp.is_entry if sc["fpos"] == "ENTRY" else is_exit(sp)
+                pos = sc["bpos"]
+            if ok:
+                lst.append((sp.key, pos, exit_offset(sp), sorted(sp.offsets), func))
+        expected[oi] = lst
+    return expected
+
+
+def check_c07(mt, sess):
+    world = mt.world
+    exp = getattr(sess, "c07_expected", None) or {}
+    ops = sess.desc["ops"]
+    by_op = {}
+    for c in sess.contexts:
+        by_op.setdefault(c["op"], []).append(c)
+    for oi, want in sorted(exp.items()):
+        got = by_op.get(oi, [])
+        if want == "refused":
+            if sess.refused.get(oi) != "UnresolvableScopeError" or got:
+                raise core.Violation("C07", "context-mismatch", {"op": oi, "what": "a function scope without function information was not refused"}, {"kind": "not-refused"})
+            continue
+        if oi in sess.refused:
+            raise core.Violation("C07", "not-invoked", {"op": oi, "what": "scope was refused: " + sess.refused[oi]}, {"kind": "refused", "scope": ops[oi]["scope"]["t"]})
+        want_keys = {w[0]: w for w in want}
+        seen = {}
+        for c in got:
+            seen[c["block"]] = seen.get(c["block"], 0) + 1
+        sig = {
+            "scope": ops[oi]["scope"]["t"],
+            "pos": ops[oi]["scope"].get("pos") or ops[oi]["scope"].get("bpos"),
+            "fpos": ops[oi]["scope"].get("fpos"),
+            "layout_reordered": bool(getattr(mt.model, "reordered_ever", False)),
+        }
+        for key in sorted(want_keys):
+            if key not in seen:
+                raise core.Violation("C07", "not-invoked", {"op": oi, "scope": ops[oi]["scope"], "block": key}, sig)
+        for key, n in sorted(seen.items()):
+            if key not in want_keys:
+                raise core.Violation("C07", "invoked-elsewhere", {"op": oi, "scope": ops[oi]["scope"], "block": key}, sig)
+            if n > 1:
+                raise core.Violation("C07", "invoked-twice", {"op": oi, "scope": ops[oi]["scope"], "block": key, "times": n}, sig)
+        for c in got:
+            key, pos, exit_off, bounds, func = want_keys[c["block"]]
+            off = c["offset"]
+            ok = (pos == "ENTRY" and off == 0) or (pos == "EXIT" and off == exit_off) or (pos == "ANYWHERE" and off in set(bounds) | {exit_off} and off <= exit_off)
+            if not ok:
+                raise core.Violation("C07", "wrong-offset-class", {"op": oi, "scope": ops[oi]["scope"], "offset": off, "exit_offset": exit_off, "boundaries": bounds}, sig)
+            want_fu = world.func_uuid.get(func) if func is not None else None
+            if (c["func"] or None) != (str(want_fu) if want_fu is not None else None):
+                raise core.Violation("C07", "context-mismatch", {"op": oi, "what": "InsertionContext.function", "got": c["func"], "expected": str(want_fu)}, sig)
+    # specific-location insertions: context names the requested block/offset
+    for oi, (key, off, length) in sess.resolved.items():
+        for c in by_op.get(oi, []):
+            if c["block"] != key or c["offset"] != off:
+                raise core.Violation("C07", "context-mismatch", {"op": oi, "what": "InsertionContext of insert_at/replace_at", "got": [c["block"], c["offset"]], "expected": [key, off]}, {"kind": "specific"})
+        if len(by_op.get(oi, [])) > 1:
+            raise core.Violation("C07", "invoked-twice", {"op": oi}, {"kind": "specific"})
